@@ -353,6 +353,7 @@ func init() {
 func runC03(t *testing.T, c *choice.Stream, r *Result, opt RunOpt) {
 	Bubble(t, c, r, opt, func(e *Env) func() {
 		cf := DrawConf(c)
+		cf.HandshakeTimeout = []time.Duration{0, 0, 300 * time.Millisecond, 2 * time.Second}[c.Draw("hs.timeout", 4)]
 		nq := c.Range("queries", 1, 2)
 		maxP := 8
 		if opt.Tier == "thorough" {
